@@ -15,6 +15,18 @@ CHECKS = {
         "Trusted: TLC, the harness token constructors (checked against the spec's vocabulary attributes at start).",
    technique="TLA+ model (OrderedMap/AliasTrie/TokenKeys) + TLC exhaustive exploration + replay on real trie + TLC trace validation",
    ref="§4 C20"),
+ "C13": dict(
+   text="The scanner is specified as a code-point state machine (Scanner.tla: one NextToken step per token, blank skipping with the indent rule, "
+        "identifiers/keywords, numbers, text and character literals with escapes, nested comments, alias placeholders) with UTF-8 validity from Utf8.tla; "
+        "the real scanner's output for every string up to a small length over class alphabets (normal and alias mode), every short byte string over "
+        "11 critical bytes, every keyword in 7 spellings, seeded long strings and the repository's .ddp files is validated token by token by TLC "
+        "(ScannerTrace.tla) against the state machine and against the partition invariants (literal = source substring at the reported positions, order, "
+        "blanks-only gaps, single final EOF).",
+   note="Exhaustive only up to the stated lengths (3 full alphabet / 5 focused alphabets quick; 4 / 6-7 thorough). The keyword table is a committed "
+        "snapshot (spec/scanner/Keywords.tla). Capitalisation and alias-parameter complaints are not modelled. Positions after a line feed inside an alias "
+        "placeholder are left unspecified.",
+   technique="TLA+ scanner state machine + TLC trace validation of real scanner output over exhaustively enumerated inputs",
+   ref="§4 C13"),
 }
 PENDING = {}
 
